@@ -24,6 +24,7 @@
 #include "quill/Logger.h"
 #include "quill/DeferredFormatCodec.h"
 #include "quill/sinks/Sink.h"
+#include "quill/filters/Filter.h"
 #include "quill/core/ThreadContextManager.h"
 
 using vh::u64;
@@ -143,6 +144,22 @@ private:
   u64 _calls{0};
 };
 
+class ModFilter : public quill::Filter
+{
+public:
+  ModFilter(std::string name, u64 m) : quill::Filter(std::move(name)), _m(m) {}
+  bool filter(quill::MacroMetadata const*, uint64_t, std::string_view, std::string_view, std::string_view,
+              quill::LogLevel, std::string_view msg, std::string_view) noexcept override
+  {
+    u64 id = 0; size_t i = 0;
+    while (i < msg.size() && msg[i] >= '0' && msg[i] <= '9') { id = id * 10 + static_cast<u64>(msg[i] - '0'); ++i; }
+    if (i == 0 || i >= msg.size() || msg[i] != ':') id = 0;
+    return (id % _m) != 0;
+  }
+private:
+  u64 _m;
+};
+
 static void notifier(std::string const& s)
 {
   unsigned long n = 0;
@@ -169,12 +186,18 @@ struct LoggerHandle
 {
   std::function<long(int level, int id, int mode, size_t pad)> log; // -1 filtered, 0 false, 1 true
   std::function<void()> flush;
+  std::function<void(uint32_t, int)> init_bt;
+  std::function<void()> flush_bt;
   std::function<void(int)> set_level;
   std::function<void()> remove;
 };
 
 static constexpr quill::MacroMetadata kLogMeta{"be.cpp:1", "drv", "{}{}", nullptr, quill::LogLevel::Dynamic,
                                                quill::MacroMetadata::Event::Log};
+// static-level call sites (what LOG_TRACE_L3 ... LOG_CRITICAL, LOG_BACKTRACE expand to)
+#define VMETA(L) quill::MacroMetadata{"be.cpp:2", "drv", "{}{}", nullptr, quill::LogLevel::L, quill::MacroMetadata::Event::Log}
+static constexpr quill::MacroMetadata kStaticMeta[10] = {VMETA(TraceL3), VMETA(TraceL2), VMETA(TraceL1), VMETA(Debug), VMETA(Info),
+                                                         VMETA(Notice), VMETA(Warning), VMETA(Error), VMETA(Critical), VMETA(Backtrace)};
 
 template <typename F>
 static LoggerHandle make_logger(std::string const& name, std::vector<std::shared_ptr<quill::Sink>> sinks)
@@ -187,9 +210,14 @@ static LoggerHandle make_logger(std::string const& name, std::vector<std::shared
   {
     auto lv = static_cast<quill::LogLevel>(level);
     if (!lg->should_log_statement(lv)) return -1;
-    return lg->template log_statement<false, true>(lv, &kLogMeta, Thrower{id, mode}, std::string(pad, 'x')) ? 1 : 0;
+    if (mode >= 10 && level <= 9)
+      return lg->template log_statement<false, false>(quill::LogLevel::None, &kStaticMeta[level], Thrower{id, mode % 10},
+                                                      std::string(pad, 'x')) ? 1 : 0;
+    return lg->template log_statement<false, true>(lv, &kLogMeta, Thrower{id, mode % 10}, std::string(pad, 'x')) ? 1 : 0;
   };
   h.flush = [lg]() { lg->flush_log(); };
+  h.init_bt = [lg](uint32_t cap, int lvl) { lg->init_backtrace(cap, static_cast<quill::LogLevel>(lvl)); };
+  h.flush_bt = [lg]() { lg->flush_backtrace(); };
   h.set_level = [lg](int v) { lg->set_log_level(static_cast<quill::LogLevel>(v)); };
   h.remove = [lg]() { quill::FrontendImpl<F>::remove_logger(lg); };
   return h;
@@ -322,7 +350,7 @@ static size_t parse_simple(std::vector<u64> const& l, size_t i, size_t end, std:
   while (i < end)
   {
     u64 c = l[i];
-    size_t n = (c == 1 || c == 2) ? 6 : (c == 3 || c == 5 || c == 8) ? 1 : (c == 4) ? 4 : (c == 6 || c == 7) ? 2 : (c == 10) ? 0 : 999;
+    size_t n = (c == 1 || c == 2) ? 6 : (c == 3 || c == 5 || c == 8) ? 1 : (c == 4 || c == 12) ? 4 : (c == 6 || c == 7 || c == 13) ? 2 : (c == 10) ? 0 : (c == 11) ? 6 : 999;
     if (n == 999 || i + 1 + n > end) break;
     out.push_back({c, std::vector<u64>(l.begin() + i + 1, l.begin() + i + 1 + n)});
     i += 1 + n;
@@ -344,7 +372,7 @@ static bool busy(u64 t)
 static void exec_simple(Cmd const& c)
 {
   auto const& a = c.a;
-  if ((c.code == 1 || c.code == 2 || c.code == 4 || c.code == 5) && busy(a[0])) { obs({5, 0}); return; }
+  if ((c.code == 1 || c.code == 2 || c.code == 4 || c.code == 5 || c.code == 11 || c.code == 12) && busy(a[0])) { obs({5, 0}); return; }
   switch (c.code)
   {
   case 1:
@@ -352,7 +380,8 @@ static void exec_simple(Cmd const& c)
   {
     Worker& w = worker(a[0]);
     int id = static_cast<int>(a[1]); u64 lgi = a[2]; int lvl = static_cast<int>(a[3]); u64 sz = a[4]; int mode = static_cast<int>(a[5]);
-    size_t pad = sz >= 45 ? static_cast<size_t>(sz - 45) : 0;
+    u64 const hdr = mode >= 10 ? 44 : 45; // a static-level statement carries no dynamic level byte
+    size_t pad = sz >= hdr ? static_cast<size_t>(sz - hdr) : 0;
     w.stall_next_clock = (c.code == 2);
     w.result = -2;
     bool done = start_cmd(w, [&w, lgi, lvl, id, mode, pad] { w.result = g_loggers[lgi].log(lvl, id, mode, pad); });
@@ -384,6 +413,30 @@ static void exec_simple(Cmd const& c)
     obs({5, static_cast<u64>(done ? 1 : 2)});
     break;
   }
+  case 11:
+  {
+    Worker& w = worker(a[0]);
+    u64 lgi = a[2]; uint32_t cap = static_cast<uint32_t>(a[3]); int fl = static_cast<int>(a[4]);
+    w.result = 1;
+    bool done = start_cmd(w, [&w, lgi, cap, fl] { g_loggers[lgi].init_bt(cap, fl); w.result = 1; });
+    obs({5, static_cast<u64>(done ? 1 : 2)});
+    break;
+  }
+  case 12:
+  {
+    Worker& w = worker(a[0]);
+    u64 lgi = a[2];
+    w.result = 1;
+    bool done = start_cmd(w, [&w, lgi] { g_loggers[lgi].flush_bt(); w.result = 1; });
+    obs({5, static_cast<u64>(done ? 1 : 2)});
+    break;
+  }
+  case 13:
+  {
+    try { g_sinks[a[0]]->add_filter(std::make_unique<ModFilter>("mod" + std::to_string(a[1]), a[1])); }
+    catch (std::exception const&) {}
+    break;
+  }
   case 5: quit_worker(a[0]); g_dead[a[0]] = true; obs({5, 1}); break;
   case 6: g_loggers[a[0]].set_level(static_cast<int>(a[1])); break;
   case 7: g_sinks[a[0]]->set_log_level_filter(static_cast<quill::LogLevel>(a[1])); break;
@@ -412,7 +465,7 @@ static void run_case(std::vector<u64> const& l)
   u64 capk = l[i++];
   i += 3; // batch, on_batch, on_drain: facts of the source, not inputs of the implementation
   u64 tinit = l[i++], soft = l[i++], hard = l[i++], grace = l[i++];
-  i += 4; // bits, refresh2, catchall, report_first: facts of the source
+  i += 7; // bits, refresh2, catchall, report_first, bt_reset, bt_guard, bt_catch: facts of the source
   u64 clock0 = l[i++];
   g_clock.store(static_cast<long long>(clock0));
 
